@@ -1238,7 +1238,12 @@ def _rule_arguments(ctx: Ctx, r: LockRoles) -> None:
     # R8
     clock = [n for n in g.nodes if n.kind == 'store_name' and isinstance(n.meta.get('value'), ast.Call)
              and g.res.path(n.meta['value'].func) == 'time.time']
-    tl_branch = [n for n in g.nodes if n.kind == 'branch' and n.meta['test'] is tlc]
+    def _is_tl_test(n: Node) -> bool:
+        if n.meta['test'] is tlc:
+            return True
+        t_ = resolve(g, n, n.meta['test'], depth=2)
+        return isinstance(t_, ast.Call) and (getattr(t_, 'lineno', None), getattr(t_, 'col_offset', None)) == (tlc.lineno, tlc.col_offset)
+    tl_branch = [n for n in g.nodes if n.kind == 'branch' and _is_tl_test(n)]
     for c in clock:
         w = must_pass(g, [g.entry], [c], tl_branch)
         ctx.check('C12-R8', f'stage-2 clock {norm(c.meta["stmt"])} starts after stage 1', g.loc(c),
